@@ -229,6 +229,7 @@ func (e *codecEngine) groupAll(g *key.Group, poly interface{}, rtAllowed bool) {
 		g4, err = st.LoadGroup()
 	}
 	check("file", g4, err)
+	e.optionalKeys(g, in)
 	// --- protobuf
 	e.pair(bt, "group")
 	gp := cloneGroup(g).ToProto(common.GetAppVersion())
@@ -289,6 +290,47 @@ func (e *codecEngine) groupAll(g *key.Group, poly interface{}, rtAllowed bool) {
 			}
 		} else {
 			e.fail("C20-distpublic-toml-error", "DistPublic.FromTOML rejects a valid key", in)
+		}
+	}
+}
+
+// optionalKeys: the group's file with one optional key absent must load as the group that has
+// the key's default (class C20-group-toml-optional-field-not-defaulted); the real FromTOML on
+// the reduced TOML struct is also a CMir case for the model.
+func (e *codecEngine) optionalKeys(g *key.Group, in map[string]interface{}) {
+	vars, err := groupFileVariants(g)
+	if err != nil {
+		return
+	}
+	for _, v := range vars {
+		e.rep.Count("monitor/group/optional-" + v.key)
+		got, err := loadGroupFile(e.tmp, fmt.Sprintf("opt%d", e.n), v.text)
+		e.n++
+		fin := map[string]interface{}{"absent_key": v.key, "group_file": v.text}
+		for k, x := range in {
+			fin[k] = x
+		}
+		if err != nil {
+			e.fail("C20-group-toml-optional-field-not-defaulted", "a group file without the optional key "+v.key+" does not load", fin)
+			continue
+		}
+		// the TOML struct as the library decodes the file, through the real FromTOML: a case for the model
+		gt := new(key.GroupTOML)
+		if _, derr := toml.Decode(v.text, gt); derr == nil {
+			g2 := new(key.Group)
+			if g2.FromTOML(gt) == nil {
+				e.mir("Group.FromTOML", groupDurs(v.expect), e.cv.rec(gt), e.cv.rec(g2), "group file without "+v.key)
+			}
+		}
+		want := normGroup(v.expect)
+		if e.cv.rec(normGroup(got)) != e.cv.rec(want) || !want.Equal(normGroup(got)) {
+			fin["loaded_genesis_seed_is_nil"] = got.GenesisSeed == nil
+			e.fail("C20-group-toml-optional-field-not-defaulted",
+				"a group file without the optional key "+v.key+" does not load as the group with that field at its default", fin)
+			continue
+		}
+		if !bytes.Equal(cloneGroup(got).Hash(), cloneGroup(v.expect).Hash()) || !bytes.Equal(cloneGroup(got).GetGenesisSeed(), cloneGroup(v.expect).GetGenesisSeed()) {
+			e.fail("C20-group-toml-optional-field-not-defaulted", "group hash / genesis seed of a group loaded from a file without "+v.key+" differ from those of the same group in memory", fin)
 		}
 	}
 }
